@@ -112,7 +112,7 @@ impl Prop for C14 {
     type Case = Case;
     const ID: &'static str = "C14";
     const NUM: u64 = 14;
-    const RULE: &'static str = "enumerated, not sampled: every order 0..=96 (quick) / 0..=200 (thorough) for empty, complete, circuit, cycle, path, star, wheel under CPU counts {1,2,3,5,max} (thorough: every count 1..=max), every (m, n) in 0..=24 squared (thorough 0..=40 squared) for biclique, and trivial/claw/utility, in AdjacencyList, AdjacencyMap, AdjacencyMatrix, EdgeList (plus empty for AdjacencyListWeighted); inadmissible parameters (order 0, wheel order < 4, m or n = 0) must panic; a random leg adds orders up to 300 (thorough 600) and 200..3100 at arbitrary CPU counts (complete capped at 700 there); a 'huge-al' leg checks AdjacencyList::complete(n) for n up to 2100 (1023..1025, 2047..2049, ...) and AdjacencyList::biclique(m, n) with m*n >= 2^16 row by row at 2..16 CPUs. Oracle: closed-form arc sets written from the property text. Non-trivial = order greater than the number of CPUs in the configuration, or order squared not a multiple of 64; distinct = distinct (generator, parameters, CPU count).";
+    const RULE: &'static str = "enumerated, not sampled: every order 0..=96 (quick) / 0..=200 (thorough) for empty, complete, circuit, cycle, path, star, wheel under CPU counts {1,2,3,5,max} (thorough: every count 1..=max), every (m, n) in 0..=24 squared (thorough 0..=40 squared) for biclique, and trivial/claw/utility, in AdjacencyList, AdjacencyMap, AdjacencyMatrix, EdgeList (plus empty for AdjacencyListWeighted); inadmissible parameters (order 0, wheel order < 4, m or n = 0) must panic; a random leg adds orders up to 300 (thorough 600) and 200..3100 at arbitrary CPU counts (complete capped at 700 there); a 'huge-al' leg checks AdjacencyList::complete(n) for n up to 2100 (1023..1025, 2047..2049, ...) and AdjacencyList::biclique(m, n) with m*n >= 2^16 row by row at 2..16 CPUs. trivial / claw / utility (and every generator up to order 8) are also called on user-side newtypes that implement only the required trait methods and inherit the provided ones. Oracle: closed-form arc sets written from the property text. Non-trivial = order greater than the number of CPUs in the configuration, or order squared not a multiple of 64; distinct = distinct (generator, parameters, CPU count).";
     const ASSUMPTIONS: &'static [&'static str] = &["closed forms in harness/src/model.rs::closed_form are transcriptions of the property statement"];
 
     fn legs(tier: Tier) -> Vec<Leg> {
@@ -238,6 +238,19 @@ impl Prop for C14 {
             let m = check_one::<AdjacencyMap>(c, "AdjacencyMap")?;
             let x = check_one::<AdjacencyMatrix>(c, "AdjacencyMatrix")?;
             let e = check_one::<EdgeList>(c, "EdgeList")?;
+            if matches!(c.kind.as_str(), "trivial" | "claw" | "utility" | "empty" | "biclique") || c.n <= 8 {
+                // user-side wrappers that inherit the provided trait methods
+                let wl = check_one::<reprs::Wrapped<AdjacencyList>>(c, "user-defined wrapper of AdjacencyList (inherits the provided methods)")?;
+                let wm = check_one::<reprs::Wrapped<AdjacencyMap>>(c, "user-defined wrapper of AdjacencyMap (inherits the provided methods)")?;
+                let wx = check_one::<reprs::Wrapped<AdjacencyMatrix>>(c, "user-defined wrapper of AdjacencyMatrix (inherits the provided methods)")?;
+                let we = check_one::<reprs::Wrapped<EdgeList>>(c, "user-defined wrapper of EdgeList (inherits the provided methods)")?;
+                ensure!(
+                    wl.map(|w| w.0) == l && wm.map(|w| w.0) == m && wx.map(|w| w.0) == x && we.map(|w| w.0) == e,
+                    "{}({}): a user-defined wrapper that inherits the provided trait methods produces another digraph than the library type",
+                    c.kind,
+                    c.n
+                );
+            }
             if let (Some(l), Some(m), Some(x), Some(e)) = (l, m, x, e) {
                 // all representations produce the same digraph
                 let o = reprs::observe(&l);
